@@ -597,6 +597,7 @@ def mapping_shape(repo):
               successLoggedLastInTry=False, exceptReraises=False,
               finallyWritesLog=False, finallyWritesJson=False,
               finallyWritesHdf5=False, finallyHasNoReturn=False,
+              finallyCleanupGuarded=False,
               csvAfterAssignment=False, resultsAfterAssignment=False,
               hdf5SkipsResults=False, hdf5ResultsGuarded=False)
     try:
@@ -669,6 +670,44 @@ def mapping_shape(repo):
             sh['finallyHasNoReturn'] = not any(
                 isinstance(n, (ast.Return, ast.Break, ast.Continue))
                 for f in fin for n in ast.walk(f))
+            # clean-up calls that come before the first write of the finally
+            # block must be guarded by try/except OSError
+            first_write = None
+            for i, f in enumerate(fin):
+                if any(callee(c) in ('write_log', 'blob_to_hdf5', 'dumps')
+                       for c in calls(f)):
+                    first_write = i
+                    break
+            guarded = first_write is not None
+
+            def unguarded_cleanup(node, in_guard):
+                if isinstance(node, ast.Try):
+                    g = in_guard or any(
+                        h.type is not None and (
+                            (isinstance(h.type, ast.Name)
+                             and h.type.id in ('OSError', 'Exception'))
+                            or (isinstance(h.type, ast.Tuple) and any(
+                                isinstance(e, ast.Name)
+                                and e.id in ('OSError', 'Exception')
+                                for e in h.type.elts)))
+                        and not any(isinstance(n, ast.Raise)
+                                    for b in h.body for n in ast.walk(b))
+                        for h in node.handlers)
+                    bad = any(unguarded_cleanup(b, g) for b in node.body)
+                    bad = bad or any(unguarded_cleanup(b, in_guard)
+                                     for h in node.handlers for b in h.body)
+                    bad = bad or any(unguarded_cleanup(b, in_guard)
+                                     for b in node.orelse + node.finalbody)
+                    return bad
+                if isinstance(node, ast.Call) and callee(node) == '_clean_up':
+                    return not in_guard
+                return any(unguarded_cleanup(ch, in_guard)
+                           for ch in ast.iter_child_nodes(node))
+            if guarded:
+                for f in fin[:first_write]:
+                    if unguarded_cleanup(f, False):
+                        guarded = False
+            sh['finallyCleanupGuarded'] = guarded
         inner = find_func(mod, '_run_mapping')
         line_assign = line_csv = line_results = None
         for s in ast.walk(inner):
